@@ -18,6 +18,7 @@ var c05Pool = []string{
 	"0.3333333333333333333333333333333333", "0.6666666666666666666666666666666667", "5e-1", "4999999999999999999999999999999999.5", "5000000000000000000000000000000000.5",
 	"1e6144", "9.999999999999999999999999999999999e6144", "1e-6143", "1e400", "1e-400", "1e6000", "1e-6000", "-1e6000",
 	"123456789012345678901234567890.1234", "-123456789012345678901234567890.1234", "3.14159", "2.718281828459045", "6", "9", "12", "0.25", "0.125", "1e3", "33", "99", "-7", "-3", "-0.1", "4", "8", "5",
+	"15E-1", "-25E-1", "1E-40", "25e-1", "7E+0", "3.50E0",
 }
 
 var c05Ops = []string{"+", "-", "*", "/", "//", "%", "==", "!=", "<", "<=", ">", ">="}
@@ -139,7 +140,14 @@ func c05Operand(r *gen.R, maxDigits int) string {
 	s = d
 	switch r.Weighted([]int{50, 25, 10, 10, 5}) {
 	case 1:
-		s += fmt.Sprintf("e%d", r.Intn(41)-20)
+		mk := Pick3(r)
+		ex := r.Intn(41) - 20
+		if strings.HasSuffix(mk, "+") || strings.HasSuffix(mk, "-") {
+			if ex < 0 {
+				ex = -ex
+			}
+		}
+		s += fmt.Sprintf("%s%d", mk, ex)
 	case 2:
 		s += fmt.Sprintf("E+%d", 6000+r.Intn(140))
 	case 3:
@@ -149,6 +157,9 @@ func c05Operand(r *gen.R, maxDigits int) string {
 	}
 	return s
 }
+
+// Pick3: the exponent marker in its spellings
+func Pick3(r *gen.R) string { return gen.Pick(r, []string{"e", "E", "e+", "E+", "e-", "E-", "e", "E"}) }
 
 func c05Random(c *Ctx, idx int) {
 	r := c.Rand("")
@@ -260,6 +271,11 @@ var c05Canaries = []struct{ expr, doc string }{
 	{"ceil(`1.000000000000000000000000000000001`)", "null"},
 	{"floor(`-1.000000000000000000000000000000001`)", "null"},
 	{"ceil(`-0.5`)", "null"},
+	{"ceil(`15E-1`)", "null"},
+	{"floor(`-25E-1`)", "null"},
+	{"[ceil(a), floor(a), abs(a)]", `{"a":15E-1}`},
+	{"[ceil(a), floor(a), abs(a)]", `{"a":-25E-1}`},
+	{"[ceil(a), floor(a)]", `{"a":1E-40}`},
 	{"floor(`9007199254740993.5`)", "null"},
 	{"to_number('0.1') + to_number('0.2') == to_number('0.3')", "null"},
 	{"to_number('9007199254740993')", "null"},
